@@ -314,6 +314,38 @@ def lint_obligation(ctx):
     ctx.coverage["stale_manager_lint"] = "clean" if rc == 0 else out.strip().split("\n")[:5]
 
 
+def runtime_layer(ctx, name, what, opchoice, quick_n=200, nks=(2, 2, 3, 3, 4), seedoff=0, progs_fn=None):
+    """a property's primitive exercised on the WHOLE real runtime (T2 machine) and judged by the runtime oracle: used
+    by the checks of the blocking primitives, whose lock-step models run on the T1 machine (no migration between
+    kernel threads, no run queues)"""
+    lint_obligation(ctx)
+    exe = build(ctx)
+    if not exe:
+        return
+    rng = random.Random(ctx.seed * 7919 + 4242 + seedoff)
+    n = quick_n if ctx.tier == "quick" else quick_n * 20
+    cases = []
+    for _ in range(n):
+        nk = rng.choice(list(nks))
+        if progs_fn is not None and rng.random() < 0.5:
+            progs = progs_fn(rng)
+        else:
+            progs = [[(rng.choice(opchoice), rng.randint(0, 1)) for _ in range(rng.randint(1, 6))]
+                     for _f in range(rng.randint(1, 5))]
+        cases.append(core.fmt_case([60000, nk], progs,
+                                   core.random_sched(rng, nk, rng.randint(30, 2500), rng.choice([0, 1, 2, 3, 3]))))
+    impl = core.run_sharded([exe], cases, timeout=900)
+    bad = 0
+    for c, line in zip(cases, impl):
+        why = core.safe_monitor(monitor, c, core.parse_trace(line) if line is not None else None, line)
+        if why:
+            bad += 1
+            if bad <= 3:
+                core.report_violation(ctx, "kernel", c, "%s: %s" % (what, why), line)
+    ctx.coverage["%s_runtime_layer_t2" % name] = {"runs": len(cases), "violations": bad}
+    ctx.oblige("%s-t2(%d runs)" % (name, len(cases)), bad == 0, "%d runs judged a violation" % bad)
+
+
 def run(ctx):
     ctx.trusted = TRUSTED
     core.coq_property(ctx, "Properties_C01.v", THEOREMS)
